@@ -114,7 +114,7 @@ CHECKS = {
         engine="Authority",
         technique="TLA+ spec Authority (lock.json / meta.json, one action per file-system call of try_acquire, write_meta, Drop, stale and corrupt cleanup, the recovery loop) model-checked with TLC for the atomic-cleanup design and as implemented; complete behaviours TLC enumerates for the as-implemented model are forced on the real acquire_authority_lock_with_recovery with gates at the auth.* hook points and compared step by step (files, results)",
         text="TLC proves AtMostOne, NeverStealLive, HolderOwnsLock, LiveResidentKept and (fair) Usable for 3 contenders from all six leftover states with releases and a deadline that may expire at any retry when a cleanup's rename is atomic with its check, and finds the counterexamples of the code's check-then-rename sequences; every complete behaviour of 2 contenders of the as-implemented model (43 618; stratified sample in the quick tier; random 3-contender behaviours in the thorough tier) is forced on real threads against a real store directory (dead owner = pid of a reaped child, live resident = this process with a reachable endpoint): after each step lock.json and meta.json are read back and compared with the prediction, takeovers of a live owner's file and simultaneous guards are observed directly; after the forced part the remaining contenders finish one at a time with every arrival probed; lone and free-running contenders from every leftover state must end with exactly one authority (Usable observed directly); the real rip binary waits on a scripted live authority (half-written, written, advertised, hand-overs; the player advances when the client has read the file) and must never remove the lock, never start a server, and attach once the endpoint answers.",
-        note="Contenders are threads (same pid); crashes in the middle of a cleanup are represented by leftover start states (incl. the doubly crashed one); the CLI's own loop is checked at design level (AuthorityCli.tla), with the real rip binary against scripted live authorities (both tiers) and against every leftover state (thorough tier); four recorded findings (D9a-c, D20b); takeovers are attributed to D9 only when the thief's last check was made on the dead authority's file.",
+        note="Contenders are threads (same pid); crashes in the middle of a cleanup are represented by leftover start states (incl. the doubly crashed one); the CLI's own loop is checked at design level (AuthorityCli.tla), with the real rip binary against scripted live authorities (both tiers) and against every leftover state (thorough tier); five recorded findings (D9a-d, D20b); takeovers are attributed to D9 only when the thief's last check was made on the dead authority's file.",
         ref="4 C18"),
     "C19": dict(
         engine="SecretFlow",
